@@ -13,6 +13,11 @@ package codec
 // metadata, actions with and without parameters and results at both levels, the five batch
 // methods), create / batch_create / partial_update with returnEntity, paging on get_all and
 // finders, query parameters on plain methods.
+//
+// Three further collections (exRo, exCo, exBoth, entity Nested) declare read-only / create-only
+// fields: they belong to property C07's run through the generated bindings (harness/c02/excl.go).
+// Property C02's call generator and its Lean model know nothing about field exclusion, so C02
+// draws no calls on them (HasExclusions); they are registered on the same servers all the same.
 
 // C02Key describes the key of a collection segment.
 type C02Key struct {
@@ -44,7 +49,14 @@ type C02Resource struct {
 	Segs    []C02Seg
 	Schema  string // entity record (corpus type name), "" for action sets
 	Methods []C02Method
+	// readOnlyFields / createOnlyFields of the resource: slash-separated paths into the entity, `*`
+	// standing for array items and map keys (the generator hands them verbatim to NewPathSpec)
+	ReadOnly   []string
+	CreateOnly []string
 }
+
+// HasExclusions: the resource declares read-only or create-only fields (C07's resources).
+func (r *C02Resource) HasExclusions() bool { return len(r.ReadOnly)+len(r.CreateOnly) > 0 }
 
 const C02ComplexKey = "CK"     // complex key type vc.CK = (key vc.Inner, params vc.Base)
 const C02ComplexKeyKey = "Inner"
@@ -179,6 +191,20 @@ func C02Resources() []*C02Resource {
 	// 11. sub-collection under the complex-keyed collection
 	rs = append(rs, &C02Resource{Pkg: "subOfCk", Segs: []C02Seg{{"collCk", &C02Key{"ck", R(C02ComplexKey)}}, {"subOfCk", &C02Key{"m", P("i64")}}}, Schema: "Inner",
 		Methods: []C02Method{rest("get", true), rest("batch_get", false), rest("create", false)}})
+
+	// 12–14. collections with read-only / create-only fields (property C07): read-only only,
+	// create-only only, both. Paths cover a whole optional field, a field of a required nested record
+	// (required and optional), fields of array items and of map values, and a required top-level field.
+	exclMethods := func() []C02Method {
+		return []C02Method{rest("get", true), rest("create", false), rest("update", true), rest("partial_update", true),
+			rest("batch_create", false), rest("batch_update", false), rest("batch_partial_update", false)}
+	}
+	rs = append(rs, &C02Resource{Pkg: "exRo", Segs: []C02Seg{{"exRo", longKey}}, Schema: "Nested", Methods: exclMethods(),
+		ReadOnly: []string{"optInner", "inner/id", "arr/*/name"}})
+	rs = append(rs, &C02Resource{Pkg: "exCo", Segs: []C02Seg{{"exCo", longKey}}, Schema: "Nested", Methods: exclMethods(),
+		CreateOnly: []string{"mm", "inner/name", "m/*/id"}})
+	rs = append(rs, &C02Resource{Pkg: "exBoth", Segs: []C02Seg{{"exBoth", longKey}}, Schema: "Nested", Methods: exclMethods(),
+		ReadOnly: []string{"am", "inner/id"}, CreateOnly: []string{"aa", "optInner/name", "arr/*/name"}})
 	return rs
 }
 
@@ -226,7 +252,8 @@ func (e *Env) c02Manifest() (extraTypes []any, resources []any) {
 			ms = append(ms, mj)
 		}
 		rj := map[string]any{"namespace": r.Namespace(), "doc": "", "sourceFile": "verif-corpus",
-			"resourcePathSegments": segs, "methods": ms, "readOnlyFields": []string{}, "createOnlyFields": []string{}}
+			"resourcePathSegments": segs, "methods": ms,
+			"readOnlyFields": append([]string{}, r.ReadOnly...), "createOnlyFields": append([]string{}, r.CreateOnly...)}
 		if r.Schema != "" {
 			rj["resourceSchema"] = e.tyJSON(R(r.Schema))
 		}
